@@ -221,5 +221,5 @@ def strat_andor(draw, tier):
 
 
 PARTS = [
-    Part("andor", check_andor, lambda tier: strat_andor(tier), quick=3000, thorough=40000, shrink_quick=False, min_nontrivial_frac=0.3),
+    Part("andor", check_andor, lambda tier: strat_andor(tier), quick=3000, thorough=40000, shrink_quick=False, min_nontrivial_frac=0.15),
 ]
